@@ -1,8 +1,12 @@
 package main
 
 import (
+	"bytes"
 	"encoding/json"
 	"fmt"
+	"hash/adler32"
+	"hash/crc32"
+	"hash/crc64"
 	"math"
 	"os"
 	"os/exec"
@@ -1012,11 +1016,217 @@ func mixedLengthBatch(seed uint64, sizes []int, rounds int) c18Result {
 
 var mu18 sync.Mutex
 
+// crcPartner returns a copy of a that differs from it but has the same checksum under a reflected CRC
+// with the given (reflected) polynomial constant of `bits` bits: the generator, written in processing
+// order, is XOR-ed in at byte offset off.
+func crcPartner(a []byte, poly uint64, bits int, off int) []byte {
+	b := append([]byte(nil), a...)
+	// generator in processing order: x^bits first, then the coefficients given by poly, LSB first
+	var g [9]byte
+	g[0] = 1
+	for k := 1; k <= bits; k++ {
+		if poly>>uint(k-1)&1 == 1 {
+			g[k/8] |= 1 << uint(k%8)
+		}
+	}
+	for i := 0; i <= bits/8; i++ {
+		if off+i < len(b) {
+			b[off+i] ^= g[i]
+		}
+	}
+	return b
+}
+
+// weakKeyPairs: pairs of different inputs that a careless memoisation key would confuse: same length and
+// same prefix / suffix, same CRC-64 (ECMA, ISO), same CRC-32 (IEEE, Castagnoli), same Adler-32, same
+// multiset of bytes, and the same buffer re-used with new contents. The second input's result, taken
+// right after the first one's, must be what it is after unrelated traffic.
+func weakKeyPairs(c *ev.Ctx, seed uint64) {
+	type bcall struct {
+		name string
+		fn   func(d []byte) []float64
+	}
+	pq := func(p, q float64) []float64 { return []float64{p, q} }
+	res := func(r *R.TestResult) []float64 { return []float64{r.P, r.Q, r.P2, r.Q2} }
+	calls := []bcall{
+		{"MonoBitFrequencyTestBytes", func(d []byte) []float64 { return pq(R.MonoBitFrequencyTestBytes(d)) }},
+		{"FrequencyWithinBlockTestBytes", func(d []byte) []float64 { return pq(R.FrequencyWithinBlockTestBytes(d, 100)) }},
+		{"PokerTestBytes4", func(d []byte) []float64 { return pq(R.PokerTestBytes(d, 4)) }},
+		{"PokerTestBytes8", func(d []byte) []float64 { return pq(R.PokerTestBytes(d, 8)) }},
+		{"PokerTestBytes2", func(d []byte) []float64 { return pq(R.PokerTestBytes(d, 2)) }},
+		{"OverlappingTemplateMatchingTestBytes", func(d []byte) []float64 {
+			a, b, e, f := R.OverlappingTemplateMatchingTestBytes(d, 5)
+			return []float64{a, b, e, f}
+		}},
+		{"RunsTestBytes", func(d []byte) []float64 { return pq(R.RunsTestBytes(d)) }},
+		{"RunsDistributionTestBytes", func(d []byte) []float64 { return pq(R.RunsDistributionTestBytes(d)) }},
+		{"LongestRunOfOnesInABlockTestBytes", func(d []byte) []float64 { return pq(R.LongestRunOfOnesInABlockTestBytes(d, true)) }},
+		{"BinaryDerivativeTestBytes", func(d []byte) []float64 { return pq(R.BinaryDerivativeTestBytes(d, 7)) }},
+		{"AutocorrelationTestBytes", func(d []byte) []float64 { return pq(R.AutocorrelationTestBytes(d, 16)) }},
+		{"MatrixRankTestBytes", func(d []byte) []float64 { return pq(R.MatrixRankTestBytes(d, 32, 32)) }},
+		{"CumulativeTestBytes", func(d []byte) []float64 { return pq(R.CumulativeTestBytes(d, true)) }},
+		{"ApproximateEntropyTestBytes", func(d []byte) []float64 { return pq(R.ApproximateEntropyTestBytes(d, 5)) }},
+		{"DiscreteFourierTransformTestBytes", func(d []byte) []float64 { return pq(R.DiscreteFourierTransformTestBytes(d)) }},
+		{"LinearComplexityTestBytes", func(d []byte) []float64 { return pq(R.LinearComplexityTestBytes(d, 500)) }},
+		{"MaurerUniversalTestBytes", func(d []byte) []float64 { return pq(R.MaurerUniversalTestBytes(d)) }},
+		{"Round12", func(d []byte) []float64 {
+			var o []float64
+			for _, r := range detect.Round12(d) {
+				o = append(o, res(r)...)
+			}
+			return o
+		}},
+		{"registry[7]", func(d []byte) []float64 { return res(R.TestMethodArr[6].Runner(d)) }},
+		{"registry[12]", func(d []byte) []float64 { return res(R.TestMethodArr[11].Runner(d)) }},
+	}
+	r := gen.NewRng(gen.Mix(seed, 1888))
+	var pairs, checks int64
+	for _, nb := range []int{128, 2500} {
+		a := gen.Pack(gen.Seq{Fam: "slight", N: nb * 8, Seed: gen.Mix(seed, 1889, uint64(nb))}.Bits())
+		mk := func(f func(b []byte)) []byte {
+			b := append([]byte(nil), a...)
+			f(b)
+			return b
+		}
+		type pair struct {
+			what string
+			b    []byte
+		}
+		var ps []pair
+		ps = append(ps, pair{"same prefix, last byte differs", mk(func(b []byte) { b[len(b)-1] ^= 0x5A })})
+		ps = append(ps, pair{"same suffix, first byte differs", mk(func(b []byte) { b[0] ^= 0xA5 })})
+		ps = append(ps, pair{"one middle bit differs", mk(func(b []byte) { b[len(b)/2] ^= 0x10 })})
+		ps = append(ps, pair{"two bytes swapped (same multiset of bytes)", mk(func(b []byte) {
+			i, j := 3, len(b)-7
+			for b[i] == b[j] {
+				j--
+			}
+			b[i], b[j] = b[j], b[i]
+		})})
+		ps = append(ps, pair{"same Adler-32 (+1,-2,+1 on three consecutive bytes)", mk(func(b []byte) {
+			for i := 10; i+2 < len(b); i++ {
+				if b[i] < 255 && b[i+1] >= 2 && b[i+2] < 255 {
+					b[i]++
+					b[i+1] -= 2
+					b[i+2]++
+					return
+				}
+			}
+		})})
+		off := r.Intn(nb - 16)
+		for _, cp := range []struct {
+			what string
+			b    []byte
+			ok   bool
+		}{
+			{"same CRC-64/ECMA", crcPartner(a, crc64.ECMA, 64, off), false},
+			{"same CRC-64/ISO", crcPartner(a, crc64.ISO, 64, off), false},
+			{"same CRC-32/IEEE", crcPartner(a, uint64(crc32.IEEE), 32, off), false},
+			{"same CRC-32/Castagnoli", crcPartner(a, uint64(crc32.Castagnoli), 32, off), false},
+		} {
+			ok := false
+			switch cp.what {
+			case "same CRC-64/ECMA":
+				ok = crc64.Checksum(a, crc64.MakeTable(crc64.ECMA)) == crc64.Checksum(cp.b, crc64.MakeTable(crc64.ECMA))
+			case "same CRC-64/ISO":
+				ok = crc64.Checksum(a, crc64.MakeTable(crc64.ISO)) == crc64.Checksum(cp.b, crc64.MakeTable(crc64.ISO))
+			case "same CRC-32/IEEE":
+				ok = crc32.ChecksumIEEE(a) == crc32.ChecksumIEEE(cp.b)
+			case "same CRC-32/Castagnoli":
+				ok = crc32.Checksum(a, crc32.MakeTable(crc32.Castagnoli)) == crc32.Checksum(cp.b, crc32.MakeTable(crc32.Castagnoli))
+			}
+			if ok && !bytes.Equal(a, cp.b) {
+				ps = append(ps, pair{cp.what, cp.b})
+				c.Count("checksum_colliding_pairs_constructed", 1)
+			}
+		}
+		if adler32.Checksum(a) != adler32.Checksum(ps[4].b) {
+			c.Count("adler_pair_not_colliding", 1)
+		}
+		// unrelated traffic of the same length
+		var traffic [][]byte
+		for k := 0; k < 24; k++ {
+			traffic = append(traffic, gen.NewRng(gen.Mix(seed, 1890, uint64(nb), uint64(k))).Bytes(nb))
+		}
+		for _, cl := range calls {
+			if nb < 1121 && (cl.name == "MaurerUniversalTestBytes") {
+				continue
+			}
+			cl := cl
+			call := func(d []byte) (v []float64, pan string) {
+				if p, m := guard(func() { v = cl.fn(d) }); p {
+					return nil, m
+				}
+				return v, ""
+			}
+			flush := func() {
+				for _, t := range traffic {
+					call(t)
+				}
+			}
+			for _, pr := range ps {
+				flush()
+				fresh, pan := call(pr.b)
+				if pan != "" {
+					c.Violation("weakkey:"+cl.name+":panic", pan, "c18", nb)
+					continue
+				}
+				flush()
+				ra, _ := call(a)
+				got, _ := call(pr.b)
+				ra2, _ := call(a)
+				pairs++
+				checks += 2
+				c.Eval(ev.HashStr(fmt.Sprintf("weakkey|%d|%s|%s", nb, cl.name, pr.what)), true)
+				if !sameVec(got, fresh) {
+					c.Violation(fmt.Sprintf("weakkey:%s:%dB:%s", cl.name, nb, pr.what), fmt.Sprintf("%s on input B (%s as input A) returned %v right after A was evaluated, but %v after unrelated traffic (A gives %v)", cl.name, pr.what, got, fresh, ra), "c18", nb)
+				} else if !sameVec(ra, ra2) {
+					c.Violation(fmt.Sprintf("weakkey:%s:%dB:%s:A-changed", cl.name, nb, pr.what), fmt.Sprintf("%s on input A returned %v, then %v after B was evaluated", cl.name, ra, ra2), "c18", nb)
+				}
+			}
+			// the same buffer re-used with new contents
+			buf := append([]byte(nil), a...)
+			r1, _ := call(buf)
+			copy(buf, ps[2].b)
+			r2, _ := call(buf)
+			flush()
+			want, _ := call(ps[2].b)
+			checks++
+			if !sameVec(r2, want) {
+				c.Violation(fmt.Sprintf("weakkey:%s:%dB:buffer-reuse", cl.name, nb), fmt.Sprintf("%s on a buffer whose contents were changed in place returned %v (first contents gave %v), a fresh slice with the new contents gives %v", cl.name, r2, r1, want), "c18", nb)
+			}
+		}
+	}
+	c.Count("weak_key_pairs_evaluated", pairs)
+	c.Count("weak_key_comparisons", checks)
+}
+
 func runC18(c *ev.Ctx) {
-	c.Rule = "(a) every test entry point is called on byte and bit slices whose contents and spare capacity (canary-filled) are snapshotted before and compared after; (b) each call is repeated and must be bit-identical; (b2) soak: every cheap entry point 70000 times (heavy ones 400) in one process, call k must equal call 1; (c) G in {2,8,64} goroutines released together each run a seeded mix of the fifteen tests, byte/bit entry points, registry runners and both round functions on one shared buffer and on private buffers: every result must be bit-identical to the solo result; (c2) one goroutine pair per input size (2.5 kB ... 300 kB, i.e. FFT lengths 2^15 ... 2^22) released together on the length-sensitive entry points; (d) the same mixes run in a -race build and DATA RACE reports are violations; (e) the registry is unchanged. non-trivial = every call (each compares a real result vector); distinct = distinct (entry point, buffer, goroutine count, sharing)"
+	c.Rule = "(a) every test entry point is called on byte and bit slices whose contents and spare capacity (canary-filled) are snapshotted before and compared after; (b) each call is repeated and must be bit-identical; (b2) soak: every cheap entry point 70000 times (heavy ones 400) in one process, call k must equal call 1; (b3) pairs of inputs a weak memoisation key would confuse (same prefix/suffix, same CRC-64/CRC-32/Adler-32, same byte multiset, same buffer re-used): the second input's result right after the first must equal its result after unrelated traffic; (c) G in {2,8,64} goroutines released together each run a seeded mix of the fifteen tests, byte/bit entry points, registry runners and both round functions on one shared buffer and on private buffers: every result must be bit-identical to the solo result; (c2) one goroutine pair per input size (2.5 kB ... 300 kB, i.e. FFT lengths 2^15 ... 2^22) released together on the length-sensitive entry points; (d) the same mixes run in a -race build and DATA RACE reports are violations; (e) the registry is unchanged. non-trivial = every call (each compares a real result vector); distinct = distinct (entry point, buffer, goroutine count, sharing)"
 	c.Assumptions = []string{"the Go race detector reports only races that occur in an observed execution"}
 	seed := uint64(c.Seed)
 	before := append([]R.TestItem(nil), R.TestMethodArr...)
+	// the -race child (d) is started first and collected at the end, so that it overlaps with (a)-(c)
+	raceDone := make(chan error, 1)
+	var raceCmd *exec.Cmd
+	if rb := os.Getenv("VERIF_BIN_RACE"); rb != "" {
+		work := os.Getenv("VERIF_WORK")
+		rsizes := "2500,5000"
+		if c.Thorough() {
+			rsizes = "2500,12500,125000"
+		}
+		raceCmd = exec.Command(rb, "child", "c18race", fmt.Sprint(seed), rsizes, filepath.Join(work, "c18race.json"))
+		raceCmd.Env = append(os.Environ(), "GORACE=halt_on_error=0 log_path="+filepath.Join(work, "race-c18"))
+		if ef, err := os.Create(filepath.Join(work, "c18race.err")); err == nil {
+			raceCmd.Stderr = ef
+			defer ef.Close()
+		}
+		if err := raceCmd.Start(); err == nil {
+			go func() { raceDone <- raceCmd.Wait() }()
+		} else {
+			raceDone <- err
+		}
+	}
 	// (a)+(b): solo purity, all specs, several lengths and families
 	lens := []int{1000, 8968, 20000, 100000}
 	if c.Thorough() {
@@ -1116,6 +1326,7 @@ func runC18(c *ev.Ctx) {
 		})
 		c.Count("soak_repeated_calls", soak)
 	}
+	weakKeyPairs(c, seed)
 	// (c) concurrency in this (plain) binary
 	sizes := []int{2500, 12500}
 	perG := 6
@@ -1165,24 +1376,14 @@ func runC18(c *ev.Ctx) {
 	if rb := os.Getenv("VERIF_BIN_RACE"); rb != "" {
 		work := os.Getenv("VERIF_WORK")
 		outF := filepath.Join(work, "c18race.json")
-		rsizes := "2500,5000"
-		if c.Thorough() {
-			rsizes = "2500,12500,125000"
-		}
-		cmd := exec.Command(rb, "child", "c18race", fmt.Sprint(seed), rsizes, outF)
-		cmd.Env = append(os.Environ(), "GORACE=halt_on_error=0 log_path="+filepath.Join(work, "race-c18"))
-		ef, _ := os.Create(filepath.Join(work, "c18race.err"))
-		cmd.Stderr = ef
-		done := make(chan error, 1)
-		_ = cmd.Start()
-		go func() { done <- cmd.Wait() }()
 		select {
-		case <-done:
+		case <-raceDone:
 		case <-time.After(40 * time.Minute):
-			_ = cmd.Process.Kill()
+			if raceCmd != nil && raceCmd.Process != nil {
+				_ = raceCmd.Process.Kill()
+			}
 			c.Inconclusive("race child watchdog fired")
 		}
-		ef.Close()
 		if b, err := os.ReadFile(outF); err == nil {
 			var rr c18Result
 			if json.Unmarshal(b, &rr) == nil {
